@@ -717,7 +717,7 @@ func (c *Ctx) checkMarshalValue(mj *ssa.Function) {
 			if ok && bo.Op == token.QUO {
 				if cv, ok := bo.X.(*ssa.Convert); ok {
 					if ex, ok := c.resolve(cv.X).(*ssa.Extract); ok && ex.Tuple == ssa.Value(toU) && ex.Index == 0 {
-						if _, p := c.fieldPath(c.resolve(bo.Y)); len(p) == 1 && p[0] == m.T.Underlying().(*types.Struct).Field(m.ScaleIdx).Name() {
+						if _, p := c.fieldPath(c.resolve(bo.Y)); len(p) == 1 && p[0] == vname(m.T.Underlying().(*types.Struct).Field(m.ScaleIdx)) {
 							okRatio = true
 						}
 					}
@@ -729,7 +729,7 @@ func (c *Ctx) checkMarshalValue(mj *ssa.Function) {
 				c.violate("C11.same-value", "item.MarshalJSON:levelOfConcern", st.Pos(), fnName(mj), "JSON v2 levelOfConcern is not float64(value)/scale of the same item: the table and JSON would disagree")
 			}
 		case "referenceValue":
-			if _, p := c.fieldPath(c.resolve(st.Val)); len(p) == 1 && p[0] == m.T.Underlying().(*types.Struct).Field(m.ScaleIdx).Name() {
+			if _, p := c.fieldPath(c.resolve(st.Val)); len(p) == 1 && p[0] == vname(m.T.Underlying().(*types.Struct).Field(m.ScaleIdx)) {
 				found["referenceValue"] = true
 			} else {
 				c.violate("C11.same-value", "item.MarshalJSON:referenceValue", st.Pos(), fnName(mj), "JSON v2 referenceValue is not the item's scale")
